@@ -220,6 +220,11 @@ def parse_rvalue(s):
                         "FnPtrToPtr", "PointerExposeProvenance", "PointerWithExposedProvenance", "Subtype"):
                     return ("cast", parse_operand(s[:k]), rest[:j].strip(), kind)
         return ("use", parse_operand(s))
+    # cast of a function item: `<T as Trait>::f as fn(..) -> R (PointerCoercion(ReifyFnPointer(..), ..))`
+    if s.endswith("))") and "ReifyFnPointer" in s:
+        k = find_top(s, " as ")
+        if k >= 0:
+            return ("use", ("fnitem", s[:k].strip()))
     if s.startswith("&raw const "):
         return ("rawref", False, parse_place(s[11:]))
     if s.startswith("&raw mut "):
